@@ -457,6 +457,17 @@ class Transaction:
                 # Known-pre-commit-point failure - safe to clean up written files
                 self._rollback()
                 raise e
+            except BaseException:
+                # Asynchronous interrupt (KeyboardInterrupt, SystemExit, ...). It
+                # may have landed AFTER the commit point - e.g. during the lock
+                # release or marker cleanup - in which case the committed snapshot
+                # references our written files. Whether the pointer was flipped
+                # is unknown here, so treat the outcome as ambiguous: keep the
+                # files (GC collects true orphans) and mark the transaction
+                # finished, so that the context manager's rollback cannot delete
+                # committed data.
+                self._rollback(delete_files=False)
+                raise
 
         # This line should not be reached if max_retries > 0, but added for completeness
         self._rollback()
